@@ -82,7 +82,7 @@ def nest(Qo, Qi, q, construct):
     o = P.Table("ot")
     if construct == "top":
         return q
-    if type(q).__name__ == "_SetOperation" and construct in ("setop-base", "setop-operand", "setop-base-ordered", "create-as", "subquery-select", "subquery-join", "function-arg", "function-arg-orderby", "cmp-operand", "case-result"):
+    if type(q).__name__ == "_SetOperation" and construct in ("setop-base", "setop-operand", "setop-base-ordered", "setop-other-class-operand", "create-as", "subquery-select", "subquery-join", "function-arg", "function-arg-orderby", "cmp-operand", "case-result"):
         return None  # a set operation is nested as a FROM / IN / CTE subquery only
     if construct == "subquery-from":
         return Qo.from_(q.as_("sq")).select("a")
@@ -111,6 +111,10 @@ def nest(Qo, Qi, q, construct):
         return q.union(other)
     if construct == "setop-operand":
         return other.union(q)
+    if construct == "setop-other-class-operand":
+        # a third operand built by a class with the OTHER bracket habit (MySQL's queries never ask for brackets, all others do): the base decides for all
+        Qx = P.Query if Qo is P.MySQLQuery else P.MySQLQuery
+        return q.union(other).union(Qx.from_(o).select(*[o.field("m%d" % i) for i in range(n)]))
     if construct == "setop-base-ordered":
         # the set operation's OWN tail (its ORDER BY belongs to the statement being rendered, whichever class built the base query)
         return q.union(other).orderby(P.Field("a"), P.Field("my col"))
